@@ -4,6 +4,9 @@
 // Every container lives in an exactly-sized heap block  [canary 32][object][canary 32]  (ASan guards the
 // outside, the canaries and the lifetime registry the inside). Two objects A, B so that copy / move /
 // assignment have a partner; reference = std::vector<int> / std::string truncated to N.
+// The statement does not say what the SOURCE of a move holds afterwards: the reference adopts the size the
+// source reports (anything in 0..old size) and marks its element values unspecified (UNSPEC) until they are
+// overwritten; every other oracle (size <= N, storage, lifetime balance, destination contents) stays exact.
 #pragma once
 #include "mc.hpp"
 #include "tracked.hpp"
@@ -22,6 +25,8 @@ namespace c14
     using trk::value_of;
 
     static const size_t CAN = 32;
+    static const int UNSPEC = -1; // reference value of a moved-from element: any value, but a constructed object
+    inline bool same_value(int got, int want) { return want == UNSPEC || got == want; }
 
     template <class Obj> struct Block // raw storage for one object between canaries
     {
@@ -361,7 +366,8 @@ namespace c14
                     mc::nontrivial();
                 X = std::move(Y);
                 mx = my;
-                my.clear(); // reference: a moved-from container is empty
+                if (!moved_from(1 - p.x, kname(p.kind)))
+                    return true;
                 break;
             case K_REBUILD_DEFAULT:
                 if (n)
@@ -389,7 +395,8 @@ namespace c14
                 new (blk[p.x].ptr()) Vec(std::move(Y));
                 blk[p.x].constructed = true;
                 mx = my;
-                my.clear();
+                if (!moved_from(1 - p.x, kname(p.kind)))
+                    return true;
                 break;
             case K_CTOR_RANGE_PTR:
             case K_CTOR_RANGE_LIST:
@@ -439,6 +446,19 @@ namespace c14
                 return false;
             }
             check(kname(p.kind));
+            return true;
+        }
+
+        // the source of a move: any size in 0..old size, element values unspecified
+        bool moved_from(int y, const char *op)
+        {
+            size_t now = blk[y].ptr()->size(), before = ref[y].size();
+            if (now > before)
+            {
+                bad(op, "moved_from_source_grew", mc::fmt("the source of the move reports size %zu, it held %zu element(s)", now, before));
+                return false;
+            }
+            ref[y].assign(now, UNSPEC);
             return true;
         }
 
@@ -505,7 +525,7 @@ namespace c14
                     for (size_t k = 0; k < m.size(); k++)
                     {
                         trk::St s = reg.state((const char *)d + k * sizeof(T));
-                        if (s != trk::ALIVE)
+                        if (m[k] == UNSPEC ? !trk::Registry::live(s) : s != trk::ALIVE)
                         {
                             bad(op, "element_not_alive", mc::fmt("%s[%zu] (size %zu) is %s", nm, k, m.size(), trk::stname(s)));
                             ok = false;
@@ -518,21 +538,21 @@ namespace c14
                 {
                     size_t k = 0;
                     for (auto it = cv.begin(); it != cv.end(); ++it, ++k)
-                        if (k >= m.size() || value_of(*it) != m[k])
+                        if (k >= m.size() || !same_value(value_of(*it), m[k]))
                             same = false;
                     if (k != m.size())
                         same = false;
                     k = 0;
                     for (auto it = v.begin(); it != v.end(); ++it, ++k)
-                        if (k >= m.size() || value_of(*it) != m[k])
+                        if (k >= m.size() || !same_value(value_of(*it), m[k]))
                             same = false;
                     if (k != m.size())
                         same = false;
                     for (k = 0; k < m.size(); k++)
-                        if (value_of(v[k]) != m[k] || value_of(cv[k]) != m[k] || value_of(v.data()[k]) != m[k])
+                        if (!same_value(value_of(v[k]), m[k]) || !same_value(value_of(cv[k]), m[k]) || !same_value(value_of(v.data()[k]), m[k]))
                             same = false;
-                    if (!m.empty() && (value_of(v.front()) != m.front() || value_of(v.back()) != m.back() || value_of(cv.front()) != m.front() ||
-                                       value_of(cv.back()) != m.back()))
+                    if (!m.empty() && (!same_value(value_of(v.front()), m.front()) || !same_value(value_of(v.back()), m.back()) ||
+                                       !same_value(value_of(cv.front()), m.front()) || !same_value(value_of(cv.back()), m.back())))
                         same = false;
                 }
                 if (!same)
